@@ -77,6 +77,9 @@ func genURLCase(t *rapid.T) urlCase {
 		c.Host = ip.String()
 	default:
 		c.Host = rapid.OneOf(gen.DNSName(), rapid.Just("localhost")).Draw(t, "dns")
+		if rapid.IntRange(0, 5).Draw(t, "fqdn") == 0 {
+			c.Host += "." // a fully-qualified name as written in zone files: another host string for the same target
+		}
 	}
 	c.Port = -1
 	if rapid.IntRange(0, 3).Draw(t, "hasport") > 0 {
@@ -218,7 +221,7 @@ func genFormCase(t *rapid.T) formCase {
 		c.Host = gen.DNSName().Draw(t, "dns")
 	}
 	c.Port = rapid.IntRange(-1, 65535).Draw(t, "port")
-	c.Form = rapid.SampledFrom([]string{"http", "https", "tls/http"}).Draw(t, "form")
+	c.Form = rapid.SampledFrom([]string{"http", "https", "tls/http", "tls/sni/http"}).Draw(t, "form")
 	c.PathKind = rapid.SampledFrom([]string{"none", "http-path", "httpath"}).Draw(t, "pathkind")
 	c.PathEsc = rapid.StringMatching(`[a-z0-9._~-]{1,6}(%2F[a-z0-9._-]{1,6}){0,3}`).Draw(t, "pathesc")
 	return c
@@ -230,7 +233,12 @@ func runFormCase(c formCase) pbt.Result {
 	if c.Port >= 0 {
 		s += "/tcp/" + strconv.Itoa(c.Port)
 	}
-	s += "/" + c.Form
+	if c.Form == "tls/sni/http" {
+		// the form libp2p uses for HTTPS endpoints that name the TLS server
+		s += "/tls/sni/sni.example.com/http"
+	} else {
+		s += "/" + c.Form
+	}
 	if c.PathKind != "none" {
 		s += "/" + c.PathKind + "/" + c.PathEsc
 	}
@@ -276,7 +284,7 @@ func runFormCase(c formCase) pbt.Result {
 
 func TestC20_Forms(t *testing.T) {
 	pbt.Run(t, pbt.Config{Prop: "C20", Unit: "TestC20_Forms",
-		Rule: "multiaddr built as host x optional tcp port x {http, https, tls/http} x {no path, http-path, legacy httpath}; oracle: scheme https for https and tls/http, http otherwise, same host, port and unescaped path. Non-trivial: https form or legacy path; distinct by multiaddr text.",
+		Rule: "multiaddr built as host x optional tcp port x {http, https, tls/http, tls/sni/<name>/http} x {no path, http-path, legacy httpath}; oracle: scheme https for https, tls/http and tls/sni/<name>/http, http otherwise, same host, port and unescaped path. Non-trivial: https form or legacy path; distinct by multiaddr text.",
 	}, genFormCase, runFormCase)
 }
 
